@@ -653,10 +653,12 @@ class G:
         return ["itxn", txns, style]
 
     # ---- calls (filled by the C02 generator)
-    def call(self, cx: Cx, want: str):
+    def call(self, cx: Cx, want: str, only=None):
         cands = [i for i, r in enumerate(self.routines) if r["ret"] == want and r.get("callable", True)]
         if cx.routine is not None:
             cands = [i for i in cands if i in cx.routine.get("may_call", [])]
+        if only is not None:
+            cands = [i for i in cands if i == only]
         if not cands:
             return None
         idx = self.pick(cands)
